@@ -33,8 +33,15 @@ if demo_src:
     shutil.copy(demo_src, demo)
 scratch = "/tmp/seedeval_%s_%d" % (a.name, os.getpid())
 subprocess.check_call(["git", "-C", "/repo", "worktree", "add", "-q", "--detach", scratch, "HEAD"])
-meta = {"name": a.name, "property": prop, "needs_to_manifest": a.needs, "repo_head": subprocess.run(
-    ["git", "-C", "/repo", "rev-parse", "--short", "HEAD"], capture_output=True, text=True).stdout.strip(), "ran": []}
+meta = {"name": a.name, "property": prop, "needs_to_manifest": a.needs, "ran": []}
+_mp = os.path.join(out, "meta.json")
+if os.path.exists(_mp):          # re-evaluation: keep what an earlier run established (tests, needs, demo)
+    _old = json.load(open(_mp))
+    _old.setdefault("history", []).append({"repo_head": _old.get("repo_head"), "checks": _old.get("checks"), "detected_by": _old.get("detected_by")})
+    if not a.needs:
+        a.needs = _old.get("needs_to_manifest", "")
+    meta = dict(_old, needs_to_manifest=a.needs, ran=list(_old.get("ran", [])))
+meta["repo_head"] = subprocess.run(["git", "-C", "/repo", "rev-parse", "--short", "HEAD"], capture_output=True, text=True).stdout.strip()
 try:
     subprocess.run(["git", "-C", scratch, "apply"], input=patch, text=True, check=True)
     env = dict(os.environ, PYTHONDONTWRITEBYTECODE="1", MPLBACKEND="Agg")
@@ -53,13 +60,16 @@ try:
         print("demo: with change exit", d1.returncode, "| without exit", d0.returncode)
     checks = [c for c in (a.checks.split(",") if a.checks else [prop]) if c]
     meta["checks"] = {}
+    meta["verif_head"] = subprocess.run(["git", "-C", HERE, "rev-parse", "--short", "HEAD"], capture_output=True, text=True).stdout.strip()
     for c in checks:
         t0 = time.time()
         r = subprocess.run([os.path.join(HERE, "check"), c, "--tier", a.tier, "--no-evidence"], env=dict(os.environ, VERIF_REPO=scratch),
                            capture_output=True, text=True, cwd=HERE)
         lines = [l for l in r.stdout.splitlines() if l.startswith(("VIOLATION", "violation key", "MACHINERY", "KNOWN"))]
         meta["checks"][c] = {"tier": a.tier, "exit": r.returncode, "wall_s": round(time.time() - t0, 1), "lines": [l[:400] for l in lines[:8]]}
-        meta["ran"].append("VERIF_REPO=<patched tree> ./check %s --tier %s" % (c, a.tier))
+        _r = "VERIF_REPO=<patched tree> ./check %s --tier %s" % (c, a.tier)
+        if _r not in meta["ran"]:
+            meta["ran"].append(_r)
         print("check", c, "exit", r.returncode, "DETECTED" if r.returncode == 1 else "MISSED", *lines[:6], sep="\n  ")
     meta["detected_by"] = [c for c, v in meta["checks"].items() if v["exit"] == 1]
 finally:
